@@ -11,7 +11,7 @@ from hyverif.props.c06 import CODES, gen_forest, shapes_upto
 
 ID = "C11"
 SHARDS = {"quick": 16, "thorough": 16}
-BUDGET = {"quick": 60, "thorough": 600}
+BUDGET = {"quick": 300, "thorough": 1800}
 HANG_IS_VIOLATION = True
 EXHAUSTIVE = True
 RULE = ("EXHAUSTIVE: every r x c grid with r*c <= 4 (quick) / <= 5 (thorough) x 10 "
